@@ -133,7 +133,12 @@ def cases(rng, tier):
 def build(case):
     s = case.get("scale", 1.0)
     ms = scaled_spec(case["mesh"], s) if s != 1.0 else case["mesh"]
-    subs = {k: df.Region(p1=[x * s for x in a], p2=[x * s for x in b]) for k, a, b in case.get("subs", [])}
+    def reg(a, b):
+        a, b = [x * s for x in a], [x * s for x in b]
+        if ms.get("intcorners") and s == 1.0 and all(float(x).is_integer() for x in a + b):
+            a, b = [int(x) for x in a], [int(x) for x in b]  # integer-typed subregion corners
+        return df.Region(p1=a, p2=b)
+    subs = {k: reg(a, b) for k, a, b in case.get("subs", [])}
     return fieldio.build_mesh(ms, subregions=subs or None)
 
 
@@ -220,6 +225,8 @@ def run_impl(case):
         except Exception as e:
             g, st = None, "err"
         obs["st"] = st
+        if st == "err":
+            fail(f"selection inside the region rejected: axis {ax}, {case.get('rng', case.get('x'))}")
         if st == "ok":
             obs["res"] = fieldio.mesh_json(g)
             tc.check_subinv(g, fail, "selection")
@@ -269,6 +276,23 @@ def run_impl(case):
                 m.save_subregions(fn)
                 m2 = df.Mesh(region=m.region, n=m.n)
                 m2.load_subregions(fn)
+                # (i) the same side-car attached to a mesh of the same geometry but other names/units
+                nd = m.region.ndim
+                other = df.Mesh(region=df.Region(p1=m.region.pmin, p2=m.region.pmax, dims=[f"q{i}" for i in range(nd)],
+                                                 units=["furlong"] * nd), n=m.n)
+                other.load_subregions(fn)
+                tc.check_subinv(other, fail, "mesh with other dimension names/units after load_subregions")
+                # (ii) a side-car that does not belong to the mesh is rejected and the previous subregions are kept
+                shifted = df.Mesh(region=df.Region(p1=m.region.pmin + 0.37 * m.cell, p2=m.region.pmax + 0.37 * m.cell), n=m.n)
+                prev = {"keep": df.Region(p1=shifted.region.pmin, p2=shifted.region.pmin + shifted.cell)}
+                shifted.subregions = prev
+                snap0 = tc.snap(shifted)
+                try:
+                    shifted.load_subregions(fn)
+                    fail("side-car whose boxes are off the lattice of the mesh was attached by load_subregions")
+                except Exception:
+                    if not same_state(tc.snap(shifted), snap0, rel=0):
+                        fail("rejected side-car changed the mesh's subregions")
             else:
                 fn = os.path.join(d, "f.h5")
                 df.Field(m, nvdim=1, value=1.0).to_file(fn)
